@@ -276,8 +276,11 @@ class CondModel:
         self.reach: dict[tuple, tuple] = {}        # (kind, nid, state) -> predecessor key + label (for histories)
         self.body_states: list[tuple] = []
         self.stuck: list[tuple] = []
+        self.dropped: list[tuple] = []             # generator finished with an accepted force and the body is unreachable from there
+        self.succ: dict[tuple, set[tuple]] = {}
         self.events = 0
         self._explore()
+        self._find_dropped()
 
     def _set_true(self, fn: FuncInfo) -> set[str]:
         sv = fn.node.args.args[0].arg
@@ -324,6 +327,7 @@ class CondModel:
                     y, st = o[1], o[2]
                     if y in self.body_nodes:
                         bk = ("body", y, st)
+                        self.succ.setdefault(key, set()).add(bk)
                         if bk not in self.reach:
                             self.reach[bk] = (key, "body invoked")
                             self.body_states.append(bk)
@@ -333,6 +337,8 @@ class CondModel:
                     for label, st2 in self._env(st):
                         self.events += 1
                         k2 = ("resume", y, st2)
+                        self.succ.setdefault(key, set()).add(k2)
+                        self.succ.setdefault(k2, set()).add(("entry", None, st2))
                         if k2 not in self.reach:
                             self.reach[k2] = (key, f"yield at line {self.g.nodes[y].lineno}" + (f", user {label} accepted" if label else ""))
                             todo.append(k2)
@@ -344,12 +350,39 @@ class CondModel:
                             todo.append(k3)
                 else:  # return
                     st = o[1]
+                    self.succ.setdefault(key, set()).add(("return", None, st))
                     for label, st2 in self._env(st):
+                        self.succ.setdefault(("return", None, st), set()).add(("entry", None, st2))
                         if st2 not in seen_entry:
                             seen_entry.add(st2)
                             k3 = ("entry", None, st2)
                             self.reach[k3] = (key, "generator finished" + (f", user {label} accepted" if label else "") + ", visitor entered again")
                             todo.append(k3)
+
+    def _find_dropped(self) -> None:
+        """A generator that finishes in a state with an accepted force, from which no continuation (the user doing nothing more,
+        the visitor entered again) ever reaches the body: the force was acknowledged and has no effect."""
+        memo: dict[tuple, bool] = {}
+
+        def body_reachable(k0) -> bool:
+            seen, todo = {k0}, [k0]
+            while todo:
+                k = todo.pop()
+                if k[0] == "body":
+                    return True
+                for n in self.succ.get(k, ()):
+                    # only continuations without a further user request: same state on entry
+                    if n not in seen:
+                        seen.add(n)
+                        todo.append(n)
+            return False
+        for key, nxt in list(self.succ.items()):
+            for r in nxt:
+                if r[0] == "return" and self.forced(r[2]) and not sd(r[2]).get("activated", False):
+                    if r not in memo:
+                        memo[r] = body_reachable(("entry", None, r[2]))
+                    if not memo[r] and key[0] != "body":
+                        self.dropped.append((key, r))
 
     def history(self, key) -> str:
         steps = []
